@@ -161,13 +161,14 @@ def h_encode_int(ctx):
     return [("urlencode(int) is its decimal rendering", out == str(n))]
 
 
-def h_params(ctx, k):
+def h_params(ctx, k, vary_names=False):
     from ref import wa_registration_ref as R
     W = _W()
-    names = ["cc", "in", "id"][:k]
+    # parameter names are the caller's choice: repeated names are ordinary (addParam only ever appends)
+    names = [ctx.choice("name%d" % i, ["cc", "in", "id"]) for i in range(k)] if vary_names else ["cc", "in", "id"][:k]
     vals, refs = [], []
     for i, nm in enumerate(names):
-        v, cs = _unicode_chars(ctx, "p%d" % i, 1, [0x10FFFF if i == 0 else (0x7F if i == 1 and k == 2 else 0x2F)])
+        v, cs = _unicode_chars(ctx, "p%d" % i, 1, [0x39 if vary_names else 0x10FFFF if i == 0 else (0x7F if i == 1 and k == 2 else 0x2F)])
         vals.append((nm, v))
         r = [ord(c) for c in nm] + [61]
         for c in cs:
@@ -296,5 +297,7 @@ def cases(tier):
         cs.append(dict(name="encode-bytes[n=%d]" % n, fn=h_encode_bytes, args=(n,), weight=8 ** n, timeout_s=300 if q else 3400, max_paths=400000))
     for k in (1, 2, 3):
         cs.append(dict(name="params[k=%d]" % k, fn=h_params, args=(k,), weight=20 ** min(k, 2), timeout_s=400 if q else 3400, max_paths=400000))
+    for k in (2, 3):
+        cs.append(dict(name="params-any-names[k=%d]" % k, fn=h_params, args=(k, True), weight=200, timeout_s=400 if q else 3400, max_paths=400000))
     cs.append(dict(name="sweep", fn=h_sweep, args=(0x3000 if q else 0x110000,), timeout_s=600))
     return cs
